@@ -128,6 +128,9 @@ type hookSpec struct {
 	K string `json:"k"`
 	V int    `json:"v"`
 	N int    `json:"n"`
+	// Rt (with k = "panic"): fail through a genuine Go run-time error instead of an explicit panic
+	// (an index out of range at index 1000+v of an empty slice, reported as "user:<v>")
+	Rt bool `json:"rt"`
 }
 
 type cmdSpec struct {
@@ -198,6 +201,9 @@ type runOut struct {
 	Values  map[string][]B  `json:"values"`
 	Sbu     map[string]bool `json:"sbu"`
 	Logs    map[string][]B  `json:"logs"`
+	// ErrLine: when Run returned an error, whether the first line of the error stream is "Error: " followed
+	// by that error's own text and a newline, byte for byte
+	ErrLine *bool `json:"errline,omitempty"`
 }
 
 type errOut struct {
@@ -810,6 +816,11 @@ func classifyPanic(v interface{}) (outcome string, code int, text string) {
 	}
 	switch x := v.(type) {
 	case runtime.Error:
+		// the run-time error of an "rt" hook is the user's panic value, not a crash of the library
+		var idx int
+		if n, _ := fmt.Sscanf(x.Error(), "runtime error: index out of range [%d] with length 0", &idx); n == 1 && idx >= 1000 {
+			return "panic", 0, fmt.Sprintf("user:%d", idx-1000)
+		}
 		return "crash", 0, "rt:" + x.Error()
 	case error:
 		return "panic", 0, "err:" + classifyErr(x)
@@ -864,6 +875,10 @@ func (r *runCtx) hook(h *hookSpec, tag, path string, isAction bool) func() {
 		}
 		switch h.K {
 		case "panic":
+			if h.Rt {
+				var empty []int
+				_ = empty[1000+h.V]
+			}
 			panic(UserPanic(h.V))
 		case "exit":
 			cli.Exit(h.N)
@@ -922,6 +937,7 @@ func (r *runCtx) configure(cmd *cli.Cmd, c *cmdSpec, path string) {
 func runCase(req *request, stderr *bytes.Buffer) *runOut {
 	r := &runCtx{trace: []B{}, shared: map[string][]string{}}
 	out := &runOut{ID: req.ID}
+	var returned error
 
 	func() {
 		defer func() {
@@ -974,6 +990,7 @@ func runCase(req *request, stderr *bytes.Buffer) *runOut {
 		if err != nil {
 			e := classifyErr(err)
 			out.Err = &e
+			returned = err
 		}
 	}()
 
@@ -995,6 +1012,10 @@ func runCase(req *request, stderr *bytes.Buffer) *runOut {
 	if stderr != nil {
 		lines := procStderr(stderr.String())
 		out.Stderr = &lines
+		if returned != nil {
+			ok := strings.HasPrefix(stderr.String(), "Error: "+returned.Error()+"\n")
+			out.ErrLine = &ok
+		}
 	}
 	return out
 }
